@@ -60,8 +60,8 @@ CHECKS = {
     "C08": dict(
         section="3/C08",
         technique="deterministic simulation, two-party: every table gtirb writes to the simulated disk is decoded / byte-compared by an independent reference codec; every table the peer writes is decoded by gtirb at a scheduled time",
-        text="(a) bytes gtirb writes decode under the reference codec (written from AuxData.hpp/AuxData.md, sharing no code with serialization.py) to the model value, byte-identical for types without set/mapping; (b) peer-written tables (reference encoder, permuted element order, repeated elements) decode under gtirb to the model value.",
-        note="value -> bytes is a pure function; the simulation contributes the two-party setting. The Java codec is NOT executed in this check (javac build of java/.../auxdatacodec was not wired in); the Java clause is covered by reading the Java codecs against the same format only. Trusted: refcodec.",
+        text="(a) bytes gtirb writes decode under the reference codec (written from AuxData.hpp/AuxData.md, sharing no code with serialization.py) to the model value, byte-identical for types without set/mapping; (b) peer-written tables (reference encoder, permuted element order, repeated elements) decode under gtirb to the model value; (c) Java clause: the repository's Java codecs decode gtirb's bytes to the model value and gtirb decodes Java's re-encoding to the model value.",
+        note="value -> bytes is a pure function; the simulation contributes the two-party setting (who wrote the bytes, when they are decoded). The repository's Java codecs ARE executed (gsim/javastage.py: javac-built from the working tree with a stub for com.google.protobuf.ByteString, batch driver java/Driver.java) as a differential stage outside the simulator, for the types Java supports (no double/Addr, tuples <= 5, variants of 2-3); if javac is missing the stage reports 'unavailable' in evidence and claims nothing. Trusted: refcodec (written from AuxData.hpp), the Java driver's rendering.",
     ),
     "C09": dict(
         section="3/C09",
